@@ -218,7 +218,7 @@ def arc_radius_centre(check, L, rec, direction, label, d):
     if not items or len(items) < 2 or not all(isinstance(x, Num) for x in items[:2]):
         check.violation("R3", "arc_radius:centre-opaque", f"{label}: the centre handed to arc() is {centre!r}", d)
         return
-    pos = [v for k, v in rec["decisions"] if k == "cmp:Gt:arg.radius"]
+    pos = [v for k, v in rec["decisions"] if k == "cmp:Gt:arg.radius"] or [v > 0 for k, v in rec["decisions"] if k == "sign:arg.radius" and v is not None]
     if not pos:
         check.undecided("R3", f"{label}: sign of the radius never consulted")
         return
